@@ -7,6 +7,7 @@ import SpdxVerif.Props.C06
 import SpdxVerif.Props.C10
 import SpdxVerif.Props.C01
 import SpdxVerif.Props.C04
+import SpdxVerif.Props.C09Text
 namespace Spdx.C10
 
 /-- the result of `satisfies` depends on the expression only through its tree -/
@@ -122,5 +123,45 @@ example : (match satisfies (andText mit isc) [mit] with | .ok b => !b | .error _
 example : (match satisfies (andText mit isc) [mit, isc] with | .ok b => b | .error _ => false) = true := by decide +kernel
 example : (match satisfies (orText mit isc) [isc] with | .ok b => b | .error _ => false) = true := by decide +kernel
 end
+
+end Spdx.C10
+
+namespace Spdx.C10
+
+/-! ### spaces inside an expression -/
+
+/-- a non-empty run of spaces inside a text can be replaced by a single space -/
+theorem toks_space_run (a sp b : Bytes) (hsp : sp.dropWhile isSp = []) (hb : b.head? ≠ some 43) :
+    toks (a ++ 32 :: (sp ++ b)) = toks (a ++ 32 :: b) := by
+  rw [toks_append a _ (by rfl), toks_append a _ (by rfl)]
+  have h1 := toks_leading_spaces (32 :: sp) b (by simp [List.dropWhile_cons, isSp, hsp]) hb
+  have h2 := toks_leading_spaces [32] b (by simp [List.dropWhile, isSp]) hb
+  simp only [List.cons_append, List.nil_append] at h1 h2
+  rw [h1, h2]
+
+/-- spaces directly after `(` and directly before `)` can be inserted or removed -/
+theorem toks_space_after_lparen (a sp b : Bytes) (hsp : sp.dropWhile isSp = []) (hb : b.head? ≠ some 43) :
+    toks (a ++ 40 :: (sp ++ b)) = toks (a ++ 40 :: b) := by
+  rw [toks_append a _ (by rfl), toks_append a _ (by rfl), toks_cons_lparen, toks_cons_lparen,
+    toks_leading_spaces sp b hsp hb]
+
+theorem toks_space_before_rparen (a sp b : Bytes) (hsp : sp.dropWhile isSp = []) :
+    toks (a ++ (sp ++ 41 :: b)) = toks (a ++ 41 :: b) := by
+  cases sp with
+  | nil => rfl
+  | cons c r =>
+    have hc : c = 32 := by
+      by_cases h : isSp c = true
+      · simpa [isSp] using h
+      · simp [List.dropWhile_cons, h] at hsp
+    subst hc
+    rw [toks_append a _ (by rfl), toks_append a _ (by rfl), toks_spaces_append (32 :: r) (41 :: b) hsp (by rfl)]
+
+/-- **extra spaces never change the result**: every such re-spacing leaves the token sequence, hence the tree, hence
+    `Satisfies` and `ExtractLicenses`, unchanged -/
+theorem respacing_irrelevant (s s' : Bytes) (L : List Bytes) (h : toks s = toks s') :
+    valid s = valid s' ∧ C07.outcome (satisfies s L) = C07.outcome (satisfies s' L) ∧ extract s = extract s' := by
+  have ht := tree_eq_of_toks s s' h
+  exact ⟨C09.valid_of_tree _ _ ht, C09.satisfies_of_tree _ _ L ht, C09.extract_of_tree _ _ ht⟩
 
 end Spdx.C10
